@@ -69,6 +69,15 @@ pub fn gen_case(prop: &str, seed: u64) -> Case {
             p.w_order_query = 6;
             p.w_range_query = 6;
             p.w_raw_query = 12;
+            // many row-sets in few tables in part of the runs
+            p.max_tables = 1 + krng.usize(3);
+            if p.max_tables == 1 {
+                p.max_steps = 38;
+                p.w_order_query = 18;
+                p.w_insert = 45;
+                p.w_delete = 8;
+                p.pk_pct = 85;
+            }
             p.w_reopen = 2;
             p.invalid_pct = 8;
             p.pk_first_only = false;
@@ -108,8 +117,12 @@ pub fn gen_case(prop: &str, seed: u64) -> Case {
             p.pk_pct = 60;
             p.pk_types = vec![Ty::Int, Ty::Int, Ty::BigInt, Ty::Varchar];
             p.pk_first_only = false;
+            p.max_tables = 1 + krng.usize(3);
+            if p.max_tables == 1 {
+                p.max_steps = 34;
+            }
             if krng.chance(2, 3) {
-                knobs.rowset_size = *krng.pick(&[64usize, 128, 256, 1024, 4096]);
+                knobs.rowset_size = *krng.pick(&[1usize, 64, 128, 256, 1024, 4096]);
             }
             let mut g = Gen::new(&mut wrng, p);
             case.steps = g.history();
@@ -222,11 +235,6 @@ pub fn gen_case(prop: &str, seed: u64) -> Case {
             }
             _ => {}
         }
-    }
-    // first keys are "required by the range-filter scan rule"; only C05, whose quantifier names
-    // the option, runs without them (and only outside the avoidance share)
-    if !(prop == "C05" && !avoid.on) {
-        knobs.record_first_key = true;
     }
     case.knobs = Some(knobs);
     case
